@@ -10,6 +10,7 @@ package main
 
 import (
 	"context"
+	"encoding/json"
 	"fmt"
 	"math/rand"
 	"sort"
@@ -21,7 +22,9 @@ import (
 	"github.com/mithrandie/csvq/lib/value"
 )
 
-const c04Aggs = "COUNT(*), MEDIAN(v), STDEV(v), STDEVP(v), VAR(v), VARP(v), JSON_AGG(v), LISTAGG(c2, '|'), usum(v), COUNT(DISTINCT c1), SUM(DISTINCT v)"
+// the last two items: an aggregate whose WITHIN GROUP order is an expression (a sort key is computed for every record
+// of the group), and after it the first column of the records once more - it must still hold the table's cells
+const c04Aggs = "COUNT(*), MEDIAN(v), STDEV(v), STDEVP(v), VAR(v), VARP(v), JSON_AGG(v), LISTAGG(c2, '|'), usum(v), COUNT(DISTINCT c1), SUM(DISTINCT v), LISTAGG(c2, ',') WITHIN GROUP (ORDER BY v * 1, rid * 1), JSON_AGG(c1), LISTAGG(c1, '|') WITHIN GROUP (ORDER BY rid * 1)"
 
 func runC04Members(r *rand.Rand, tier string, out string, meta *Meta) {
 	nWorlds, perWorld := 14, 6
@@ -126,6 +129,41 @@ func runC04Members(r *rand.Rand, tier string, out string, meta *Meta) {
 						sort.Ints(ids)
 					}
 					buckets = append(buckets, ids)
+					// (1b) JSON_AGG(c1), evaluated after an aggregate that computed sort keys for the records of the group,
+					// still lists the c1 cells of exactly these rows
+					if len(ids) > 0 {
+						// the last item lists the first column in the order of an expression (the row number): the c1 cells
+						// of these rows that are not NULL, in row order
+						sorted := append([]int{}, ids...)
+						sort.Ints(sorted)
+						var want []string
+						for _, k := range sorted {
+							if c := t.rows[k][0]; c != nil {
+								want = append(want, *c)
+							}
+						}
+						got, isStr := ra[len(ra)-1].(*value.String)
+						if (len(want) == 0) != !isStr || (isStr && got.Raw() != strings.Join(want, "|")) {
+							meta.Direct = append(meta.Direct, DirectViolation{Key: "group-cells-changed-by-evaluation", What: fmt.Sprintf("bucket %d: LISTAGG(c1, '|') WITHIN GROUP (ORDER BY rid * 1) is %s, the c1 cells of the rows %v are %q", bi, ra[len(ra)-1].String(), sorted, want),
+								Case: map[string]interface{}{"group query": sqlA, "strict_equal": strict, "cpu": cpu, "table m (c1, c2, v, rid)": showCellRows(t.rows)}})
+						}
+					}
+					if js, ok := ra[len(ra)-2].(*value.String); ok && len(ids) > 0 {
+						var got []*string
+						if e := json.Unmarshal([]byte(js.Raw()), &got); e == nil {
+							sorted := append([]int{}, ids...)
+							sort.Ints(sorted)
+							same := len(got) == len(sorted)
+							for k := 0; same && k < len(sorted); k++ {
+								want := t.rows[sorted[k]][0]
+								same = (got[k] == nil) == (want == nil) && (want == nil || *got[k] == *want)
+							}
+							if !same {
+								meta.Direct = append(meta.Direct, DirectViolation{Key: "group-cells-changed-by-evaluation", What: fmt.Sprintf("bucket %d: JSON_AGG(c1), evaluated after LISTAGG(..) WITHIN GROUP (ORDER BY v * 1, rid * 1), does not list the c1 cells of the rows %v of the table: %s", bi, sorted, js.Raw()),
+									Case: map[string]interface{}{"group query": sqlA, "strict_equal": strict, "cpu": cpu, "table m (c1, c2, v, rid)": showCellRows(t.rows)}})
+							}
+						}
+					}
 					// (2) the other aggregates over exactly these rows
 					if len(ids) > 0 {
 						sqlB := "SELECT " + c04Aggs + " FROM m WHERE rid IN (" + idText + ")"
